@@ -117,6 +117,9 @@ func c17Cases(thorough bool) []c17Case {
 			for _, st := range c17Stores[:2] {
 				out = append(out, c17Case{p.diverges, c17Decls + p.rules, p.nrule, p.name, big, l, st, ""})
 			}
+			for _, o := range []string{"retry", "grow"} {
+				out = append(out, c17Case{p.diverges, c17Decls + p.rules, p.nrule, p.name, big, l, "multiarray", o})
+			}
 		}
 	}
 	// the budget is used up (exactly, almost, just over) by an earlier stratum or by the facts in the program text,
@@ -152,6 +155,12 @@ func c17Cases(thorough bool) []c17Case {
 						continue
 					}
 					out = append(out, c17Case{p.diverges, c17Decls + p.rules, p.nrule, p.name, seed, l, st, ""})
+				}
+				// a second evaluation of the same store (after a limit error; after more base facts arrived)
+				if !strings.Contains(p.name, "+") && (l == 1 || l == 3 || l == 8) {
+					for _, o := range []string{"retry", "grow"} {
+						out = append(out, c17Case{p.diverges, c17Decls + p.rules, p.nrule, p.name, seed, l, "multiarray", o})
+					}
 				}
 				// the limit must hold whatever else is configured: single shapes also with a temporal store
 				// (empty / holding three facts) and with deterministic order
@@ -209,9 +218,35 @@ func c17Run(c c17Case) rt.CaseResult {
 		panic(fmt.Sprintf("oracle: %v on %s", rerr, c.src))
 	}
 	store := mg.NewStoreWithEDB(c.store, edb)
-	before := store.EstimateFactCount()
 	var everr error
-	opts := []engine.EvalOption{engine.WithCreatedFactLimit(c.limit)}
+	// "retry": an evaluation under the case's limit comes first (its outcome is not judged here; it is a case of its
+	// own), then the same store is evaluated again under a limit of 1000 — what a caller does after a limit error.
+	// "grow": the first evaluation sees only the first half of the base facts, the rest arrive before the second.
+	// Either way the second evaluation starts from a store that already holds some of what it derives.
+	lim := c.limit
+	switch c.opt {
+	case "retry":
+		if pv, st := rt.Try(func() { mg.Eval(pp.pi, store, engine.WithCreatedFactLimit(c.limit)) }); pv != nil {
+			viol("panic", fmt.Sprintf("first evaluation: %v at %s", pv, rt.ShortStack(st)))
+			return res
+		}
+		lim = 1000
+		if !converges {
+			lim = c.limit + 10 // diverging shapes grow their terms with every round: keep the second run short
+		}
+	case "grow":
+		half := mg.NewStoreWithEDB(c.store, edb[:len(edb)/2])
+		if pv, st := rt.Try(func() { mg.Eval(pp.pi, half, engine.WithCreatedFactLimit(1000)) }); pv != nil {
+			viol("panic", fmt.Sprintf("first evaluation: %v at %s", pv, rt.ShortStack(st)))
+			return res
+		}
+		for _, a := range edb[len(edb)/2:] {
+			half.Add(a)
+		}
+		store = half
+	}
+	before := store.EstimateFactCount()
+	opts := []engine.EvalOption{engine.WithCreatedFactLimit(lim)}
 	switch c.opt {
 	case "temporal-empty":
 		opts = append(opts, engine.WithTemporalStore(factstore.NewTemporalStore()))
@@ -242,9 +277,12 @@ func c17Run(c c17Case) rt.CaseResult {
 	if converges && everr == nil {
 		got = aggCanon(mg.Atoms(store)) // collected lists are compared as multisets
 	}
-	bound := 4*(c.limit+1)*(c.nrules+1) + 8
+	bound := 4*(lim+1)*(c.nrules+1) + 8
+	if c.opt == "retry" || c.opt == "grow" {
+		bound += 4*(c.limit+1)*(c.nrules+1) + 1008 // what the first evaluation may have left
+	}
 	if created > bound {
-		viol("growth-not-bounded", fmt.Sprintf("evaluation created %d facts with limit %d (bound used: 4*(L+1)*(rules+1)+8 = %d); store estimate before=%d after=%d", created, c.limit, bound, before, store.EstimateFactCount()))
+		viol("growth-not-bounded", fmt.Sprintf("evaluation created %d facts with limit %d (bound used: 4*(L+1)*(rules+1)+8 = %d); store estimate before=%d after=%d", created, lim, bound, before, store.EstimateFactCount()))
 	}
 	switch {
 	case !converges && everr == nil:
@@ -279,7 +317,11 @@ func c17Run(c c17Case) rt.CaseResult {
 		viol("divergence-without-error", fmt.Sprintf("the program has an infinite model but evaluation returned nil after creating %d facts", created))
 	case converges && everr == nil:
 		want := aggCanon(ref.DB.Atoms())
-		if missing, extra := mg.Diff(want, got); len(missing)+len(extra) > 0 {
+		missing, extra := mg.Diff(want, got)
+		if c.opt == "grow" {
+			extra = nil // results of the first evaluation over fewer base facts (aggregates, negation) rightly stay in the store
+		}
+		if len(missing)+len(extra) > 0 {
 			if pairs := hashCollisionPartners(ref.DB, missing); pairs != nil && len(extra) == 0 && (c.store == "simple") {
 				w["colliding"] = pairs
 				res.Violations = append(res.Violations, rt.Violation{Kind: "missing-facts-hash-collision", Detail: fmt.Sprintf("store lacks %s (hash collision %v)", mg.Short(missing), pairs), Witness: w})
@@ -294,7 +336,7 @@ func c17Run(c c17Case) rt.CaseResult {
 	}
 	if converges {
 		outcome += "/converges"
-		if ref.DB.Size()-len(edb) > c.limit {
+		if ref.DB.Size()-len(edb) > lim {
 			outcome += "-model-exceeds-limit"
 		}
 	} else {
@@ -303,7 +345,7 @@ func c17Run(c c17Case) rt.CaseResult {
 	}
 	if converges && everr != nil {
 		res.Counters["converging_but_limit_error"] = 1
-		if ref.DB.Size()-len(edb) <= c.limit {
+		if ref.DB.Size()-len(edb) <= lim {
 			res.Counters["converging_within_limit_but_error(join width or round checks)"] = 1
 		}
 	}
